@@ -54,7 +54,8 @@ def make_case(seed: int, tier: str, prop: str, opts=None) -> Dict[str, Any]:
     prof = rng.choice(C14_PROFILES)
     sp = {"profile": prof, "seed": rng.randrange(1 << 30)}
     return {"scenario": sc, "schedule": sp, "sample_seed": seed,
-            "max_points": (10 if tier == "quick" else None)}
+            "max_points": (10 if tier == "quick" else None),
+            "double": (1 if tier == "quick" else 8)}
 
 
 def fault_points(sc, hist) -> List[Dict[str, Any]]:
@@ -79,8 +80,8 @@ def max_latency(sp):
     return 0.02
 
 
-def check_one(sc, sp, f, last_req=None):
-    r = runner.execute(sc, sp, faults=[f])
+def check_one(sc, sp, f, last_req=None, f2=None):
+    r = runner.execute(sc, sp, faults=[f] + ([f2] if f2 else []))
     hist, vt = r.hist, r.vt
     viols = []
     qf = next((i for i, h in enumerate(hist) if h[0] == "fault"), None)
@@ -88,8 +89,17 @@ def check_one(sc, sp, f, last_req=None):
         return [], False, r
     tr = {s["sid"]: s.get("transport", "gated") for s in sc["sims"]}
     sid = f["sid"]
+    faulty = {sid} | ({f2["sid"]} if f2 else set())
+    if f2 is not None:
+        # whichever of the two faults fired first is "the" fault
+        first = hist[qf]
+        if first[2] == f2["sid"] and first[2] != sid:
+            f, f2 = f2, f
+            sid = f["sid"]
     oc = r.outcome
     feats = {"fault": f["kind"], "func": f["func"], "transport": "local" if tr[sid] in LOCAL else "remote"}
+    if f2 is not None:
+        feats["second_fault"] = f2["kind"]
     q_ret = next((i for i, h in enumerate(hist) if h[0] == "run_returned"), len(hist) - 1)
     q_cut = next((i for i, h in enumerate(hist) if h[0] == "harness_cleanup"), len(hist))
     hist = hist[:q_cut]          # whatever the harness does to clean up is not mosaik's doing
@@ -138,7 +148,7 @@ def check_one(sc, sp, f, last_req=None):
         # (3) every other simulator stopped exactly once
         for s in sc["sims"]:
             o = s["sid"]
-            if o == sid:
+            if o in faulty:
                 continue
             fin = sum(1 for h in hist if h[0] == "finalize" and h[1] == o)
             if tr[o] in LOCAL:
@@ -197,6 +207,17 @@ def run_case(case, prop) -> Dict[str, Any]:
     for h in base.hist:
         if h[0] == "begin" and h[1] in ("setup_done", "step", "get_data"):
             last_req[h[2]] = max(last_req.get(h[2], -1), h[5])
+    if case.get("faults") is not None and case.get("second") is not None:
+        viols, fired, r = check_one(sc, sp, case["faults"][0], last_req, case["second"])
+        out["runs"] += 1
+        for v in viols:
+            if v["kind"] in ("failure_swallowed", "run_not_prompt"):
+                continue
+            v["digest"] = digest(r.hist)
+            v["case"] = case
+            out["violations"].append(v)
+        out["digest"] = digest(r.hist)
+        return out
     if case.get("faults") is not None:
         pts = case["faults"]
     else:
@@ -244,6 +265,34 @@ def run_case(case, prop) -> Dict[str, Any]:
             if key not in reported:
                 reported.add(key)
                 out["violations"].append(v)
+    # double faults (thorough tier): a second simulator fails at a later request
+    if case.get("double") and case.get("faults") is None and len(sc["sims"]) >= 3:
+        rng = random.Random(h64(case.get("sample_seed", 0), "double"))
+        allp = fault_points(sc, base.hist)
+        for _ in range(min(case["double"], len(allp))):
+            f1 = rng.choice(allp)
+            cands = [p for p in allp if p["sid"] != f1["sid"] and p["req"] >= 1]
+            if not cands:
+                continue
+            f2 = rng.choice(cands)
+            viols, fired, r = check_one(sc, sp, f1, last_req, f2)
+            out["runs"] += 1
+            digs.append(digest(r.hist))
+            if not fired:
+                continue
+            out["aborted"] += 1
+            st["double_fault_runs"] = st.get("double_fault_runs", 0) + 1
+            if sum(1 for h in r.hist if h[0] == "fault") >= 2:
+                st["both_faults_fired"] = st.get("both_faults_fired", 0) + 1
+            for v in viols:
+                if v["kind"] in ("failure_swallowed", "run_not_prompt"):
+                    continue      # (their reference points assume a single fault)
+                v["digest"] = digs[-1]
+                v["case"] = {"scenario": sc, "schedule": sp, "faults": [f1], "second": f2}
+                key = (v["kind"], json.dumps(v["features"], sort_keys=True))
+                if key not in reported:
+                    reported.add(key)
+                    out["violations"].append(v)
     out["sample"] = {"scenario_sims": [(s["sid"], s["type"], s["transport"]) for s in sc["sims"]],
                      "schedule": sp, "fault_points_run": pts[:3]}
     out["digest"] = digest(digs)
@@ -255,9 +304,16 @@ def shrink_candidates(case, prop):
     if not faults:
         return
     f = faults[0]
+    second = case.get("second")
+    extra = {"second": second} if second else {}
+    if second:
+        yield {"scenario": sc, "schedule": sp, "faults": [f]}          # is the first fault enough?
+        yield {"scenario": sc, "schedule": sp, "faults": [second]}
     for cand in pcore.shrink_candidates({"scenario": sc, "schedules": [sp]}, prop):
         sc2 = cand["scenario"]
         if f["sid"] not in [s["sid"] for s in sc2["sims"]]:
+            continue
+        if second and second["sid"] not in [s["sid"] for s in sc2["sims"]]:
             continue
         # keep the transport class of the faulty simulator
         t_old = next(s["transport"] for s in sc["sims"] if s["sid"] == f["sid"])
@@ -267,8 +323,8 @@ def shrink_candidates(case, prop):
         if cand["schedules"][0].get("profile") == "sync" and any(
                 s["transport"] not in LOCAL for s in sc2["sims"]):
             pass
-        yield {"scenario": sc2, "schedule": cand["schedules"][0], "faults": [f]}
+        yield {"scenario": sc2, "schedule": cand["schedules"][0], "faults": [f], **extra}
     if f["req"] > 0:
         for n in (0, 1, 2, f["req"] - 1):
             if 0 <= n < f["req"]:
-                yield {"scenario": sc, "schedule": sp, "faults": [dict(f, req=n)]}
+                yield {"scenario": sc, "schedule": sp, "faults": [dict(f, req=n)], **extra}
